@@ -46,12 +46,51 @@ ASSUMPTIONS = ["programs outside the generated grammar are not covered", "render
 _STATE: dict[str, Any] = {}
 
 
+def odd_spellings() -> list[dict[str, Any]]:
+    """Source spellings the printer of the generated space never produces: names written as quoted strings, names that
+    are keywords or end in a line feed, integer path roots, keyword paths inside brackets, one-item array literals,
+    empty blocks whose tags carry whitespace control, the largest printable integer literals."""
+    names = ["a b", "with", "it's", 'q"q', "", "apple\n", "café", "x-y", "true", "for", "0", "a.b", "${x}"]
+    templates = {"p": "[{{ ['a b'] }}{{ x }}{{ with }}{{ ['apple\n'] }}]", "base": "<{% block 'a b' %}B{% endblock %}{% block c %}C{% endblock %}>"}
+    data = {"arr": [1, 2], "xs": [1, 2, 3], "g": 1, "true": "T", "for": "k", "h": {"k": "hk", "apple": "A", "apple\n": "AN", "T": "hT", "0": "zero"},
+            "a b": "AB", "apple": "a1", "apple\n": "a2", "with": "W", "0": "root-zero"}
+    srcs: list[str] = []
+    for nm in names:
+        q = "'" + nm.replace("\\", "\\\\").replace("'", "\\'").replace("\n", "\\n") + "'"
+        srcs += [
+            "{% macro " + q + " x %}M{{ x }}{% endmacro %}{% call " + q + " 1 %}{% macro a x %}A{% endmacro %}{% call a 2 %}",
+            "{% block " + q + " %}x{% endblock %}", "{% block " + q + " %}x{% endblock " + q + " %}",
+            "{% extends 'base' %}{% block " + q + " %}over{{ block.super }}{% endblock %}",
+            "{% increment " + q + " %}{% increment " + q + " %}{% decrement " + q + " %}",
+            "{% render 'p' for xs as " + q + " %}", "{% include 'p' with g as " + q + " %}", "{% render 'p' with g as " + q + " %}",
+            "{% cycle " + q + ": 1, 2 %}{% cycle 1, 2 %}{% cycle " + q + ": 1, 2 %}",
+            "{{ [" + q + "] }}{{ h[" + q + "] }}{{ h[" + q + "].size }}{{ [" + q + "][0] }}",
+        ]
+    srcs += [
+        "{{ [0] }}{{ [0].a }}{{ [1][2] }}{{ h[0] }}{{ [-1] }}", "{{ h[true] }}{{ h[for] }}{{ h[for][true] }}{{ arr[nil] }}{{ h[empty] }}{{ h[with].x }}", "{{ [true] }}{{ [for].size }}",
+        "{% for x in arr, %}[{{ x }}]{% endfor %}", "{% assign y = arr, %}{{ y | size }}{{ y[0] | size }}", "{{ 1, | size }}{{ 'a', | join: '+' }}", "{% for x in arr, xs %}[{{ x | size }}]{% endfor %}",
+        "{{ 1e4299 | size }}", "{{ -1e4298 | size }}", "{{ 12345e4294 | size }}", "{{ 0e9999 }}{{ 1e0 }}{{ 5E2 }}",
+        "{{ 2 }}{{ 2.0 }}{{ 15 | divided_by: 7 }}{{ 15 | divided_by: 7.0 }}{% for i in (1..3) limit: 3 %}{{ i }}{% endfor %}{{ 3.0 | plus: 3 }}{{ 0 | default: 'd' }}{{ 0.0 | default: 'd' }}",
+    ]
+    # empty branches whose tags carry whitespace control: dropping the tag drops its trimming
+    for wc in ("-", "~", ""):
+        srcs += [
+            "{% for x in xs %}{{ x }}, {%" + wc + " else %}{% endfor %}|", "{% for x in xs %}{{ x }}, {% else " + wc + "%} {% endfor %}|", "{% for x in nosuch %}{%" + wc + " else " + wc + "%}{% endfor %} |",
+            "{% if g %}y {%" + wc + " else %}{% endif %}|", "{% if g %}y {%" + wc + " elsif h %}{% endif %}|", "{% unless g %}{%" + wc + " else %} n{% endunless %}|",
+            "{% case g %} {%" + wc + " when 1 %}{%" + wc + " else %}{% endcase %}|", "{% case g %}{% when 2 %}x {%" + wc + " else %}{% endcase %}|",
+            "{% if g %}y {%" + wc + " endif %} |{% for x in xs %}{{ x }} {%" + wc + " endfor " + wc + "%} |{% capture c %} x {%" + wc + " endcapture %}[{{ c }}]",
+        ]
+    return [{"source": s_, "templates": templates, "data": data} for s_ in srcs]
+
+
 def _spaces(tier: str, seed: int) -> dict[str, ps.SubSpace]:
     key = (tier, seed)
     if _STATE.get("key") != key:
         sp = ps.standard_spaces(seed, tier, shopify=True, pairs="l0" if tier == "quick" else "l1")
         sp += ps.marker_spaces(seed, tier, 4 if tier == "quick" else 6)
         sp.append(ps.corpus_space())
+        odd = odd_spellings()
+        sp.append(ps.SubSpace("odd-spellings", len(odd), lambda i: odd[i]))
         _STATE["key"] = key
         _STATE["spaces"] = {s.name: s for s in sp}
         n = grammar.Names(seed)
